@@ -24,10 +24,18 @@ from harness.tlc import printed_tuples, run_tlc
 
 NONPERM = {"state", "fidelity", "expectation", "entanglement_entropy", "custom"}
 INVS = ["EffectiveTolAtLeastMin", "ShortAutosaveRejected", "NonPermutableSwitchesReorderOff", "ReorderNeverSwitchedOn", "DMRGRefusesNoise"]
+# named mechanism variants (DMRGFirst, GateReads), tried in this order
+VARIANTS = {
+    "gate_reads_config_noise": (True, "config"),         # HEAD since de839bd: solver gate first, but it only reads mps_config.noise_model
+    "gate_reads_effective_noise": (True, "effective"),   # repaired: the refusal looks at the noise model PulserData simulates
+    "round0_lindblad_first": (False, "config"),
+}
+INTENDED = "gate_reads_effective_noise"
 IMPL = {"impl:tdvp": "MPSBackendImpl", "impl:dmrg": "DMRGBackendImpl", "impl:noisy-tdvp": "NoisyMPSBackendImpl"}
 
 
-def cfg_text(sets: dict, dmrg_first: bool, log: bool, floor: str = "lt12", whitelist: str = "cWhitelist") -> str:
+def cfg_text(sets: dict, variant: tuple, log: bool, floor: str = "lt12", whitelist: str = "cWhitelist") -> str:
+    dmrg_first, gate_reads = variant
     t = f"""SPECIFICATION Spec
 CONSTANTS
   PExps <- {sets['p']}
@@ -38,6 +46,8 @@ CONSTANTS
   FloorCmp = "{floor}"
   Whitelist <- {whitelist}
   DMRGFirst = {"TRUE" if dmrg_first else "FALSE"}
+  Srcs <- {sets.get('src', 'cSrcs')}
+  GateReads = "{gate_reads}"
 """
     t += "ACTION_CONSTRAINT LogCfg\n" if log else "".join(f"INVARIANT {i}\n" for i in INVS)
     return t
@@ -48,13 +58,13 @@ def parse_rows(out: str) -> list[dict]:
     for t in printed_tuples(out, "CFG"):
         c, eff, o, ok = t[1], t[2], t[3], t[4]
         obs = c["obs"]["__set__"] if isinstance(c["obs"], dict) else list(c["obs"])
-        rows.append({"row": {"p": c["p"], "e": c["e"], "dt": c["dt"], "obs": sorted(obs), "reorder": c["reorder"], "solver": c["solver"], "noise": c["noise"]},
+        rows.append({"row": {"p": c["p"], "e": c["e"], "dt": c["dt"], "obs": sorted(obs), "reorder": c["reorder"], "solver": c["solver"], "noise": c["noise"], "src": c["src"]},
                      "eff": eff, "out": o, "ok": ok})
     return rows
 
 
 def rkey(r: dict) -> str:
-    return json.dumps([r[k] for k in ("p", "e", "dt", "obs", "reorder", "solver", "noise")])
+    return json.dumps([r[k] for k in ("p", "e", "dt", "obs", "reorder", "solver", "noise", "src")])
 
 
 def judge(res: dict) -> list[tuple[str, str]]:
@@ -79,8 +89,13 @@ def judge(res: dict) -> list[tuple[str, str]]:
         v.append(("config:reordering-switched-on", "optimize_qubit_ordering=False was requested but the constructed configuration has it on"))
     if (not row["reorder"]) and impl.get("identity") is False:
         v.append(("config:reordering-used-although-off", f"the implementation permutes qubits ({impl.get('perm')}) although reordering is off"))
-    if row["solver"] == "dmrg" and row["noise"] != "none" and "raised" not in impl:
-        v.append((f"dmrg:noise-not-refused:{'lindblad' if 'lindblad' in row['noise'] else row['noise']}", f"solver=DMRG with a {row['noise']} noise model was not refused: create_impl returned {impl.get('cls')}"))
+    if row["solver"] == "dmrg" and row["noise"] != "none":
+        run = res.get("run", {})          # the public path MPSBackend(seq, config).run() decides
+        if "raised" not in run:
+            nclass = "lindblad" if "lindblad" in row["noise"] else row["noise"]
+            key = f"dmrg:noise-not-refused:{nclass}" if row["src"] == "config" else "dmrg:device-noise-model-not-refused"
+            v.append((key,
+                      f"solver=DMRG with a {row['noise']} noise model taken from the {row['src']} was not refused: MPSBackend.run() reached the simulation with {run.get('cls', run)}"))
     return v
 
 
@@ -89,7 +104,7 @@ def run(ctx: Ctx) -> None:
     ctx.assumptions += [
         "observables that cannot be un-permuted = those whose recorded value depends on the chain order and that permute_results does not restore: state, fidelity, expectation, entanglement_entropy, and any observable the package does not know (a user-defined Observable subclass); stated in EmuConfig.tla independently of the code's whitelist",
         "the effective Krylov tolerance is config.precision * config.extra_krylov_tolerance (the expression emu_mps/solver_utils.py passes to krylov_exp); compared with 1e-12 with 8 ulp slack; checked at the point of use through the kry_exit hook on real runs",
-        "'DMRG refuses noise': create_impl (or the constructor) raises for every noise model with at least one noise type; a NoiseModel without noise types is not noise",
+        "'DMRG refuses noise': MPSBackend(sequence, config).run() raises before the simulation loop for every EFFECTIVE noise model (the one PulserData simulates: config.noise_model, or the device's default_noise_model with prefer_device_noise_model=True) with at least one noise type; observed on the public path with MPSBackend._run replaced by a sentinel in the harness process; a NoiseModel without noise types is not noise",
         "model numbers are powers of ten / tenths of seconds; other floats are covered by the random tier only",
         "TLC; Pulser NoiseModel / Observable API",
     ]
@@ -97,10 +112,11 @@ def run(ctx: Ctx) -> None:
     quick = {"p": "cPExpsQ3", "e": "cEExpsQ4", "dt": "cDtsQ", "obs": "cObsSets"}
     big = quick if ctx.quick else full
     # ---- (1) model checking of the full cross product
-    mc = run_tlc("MCEmuConfig", None, workdir=ctx.work, name="mc_asfound", cfg_text=cfg_text(big, False, False), workers=4)
+    head = next(iter(VARIANTS))
+    mc = run_tlc("MCEmuConfig", None, workdir=ctx.work, name=f"mc_{head}", cfg_text=cfg_text(big, VARIANTS[head], False), workers=4)
     ctx.add_tlc(mc)
-    ctx.log(f"TLC, mechanism as found: invariants violated: {[v[1] for v in mc['violated']]} ({mc.get('distinct')} states)")
-    mc2 = run_tlc("MCEmuConfig", None, workdir=ctx.work, name="mc_intended", cfg_text=cfg_text(big, True, False), workers=4, coverage=True)
+    ctx.log(f"TLC, mechanism {head}: invariants violated: {[v[1] for v in mc['violated']]} ({mc.get('distinct')} states)")
+    mc2 = run_tlc("MCEmuConfig", None, workdir=ctx.work, name="mc_intended", cfg_text=cfg_text(big, VARIANTS[INTENDED], False), workers=4, coverage=True)
     ctx.add_tlc(mc2)
     if mc2["violated"]:
         raise MachineryError(f"intended mechanism violates the requirement in the model: {mc2['violated']}")
@@ -108,30 +124,33 @@ def run(ctx: Ctx) -> None:
         raise MachineryError("spec action never taken")
     # self-test of the requirement: seeded defects must be found by TLC
     for nm, kw in (() if ctx.quick else (("floor_le13", {"floor": "le13"}), ("whitelist_state", {"whitelist": "cWhitelistMutant"}))):
-        st = run_tlc("MCEmuConfig", None, workdir=ctx.work, name=f"selftest_{nm}", cfg_text=cfg_text(quick, True, False, **kw), workers=4)
+        st = run_tlc("MCEmuConfig", None, workdir=ctx.work, name=f"selftest_{nm}", cfg_text=cfg_text(quick, VARIANTS[INTENDED], False, **kw), workers=4)
         if not st["violated"]:
             raise MachineryError(f"seeded model defect {nm} not detected by the invariants (vacuous requirement)")
-    ctx.coverage["model_verdicts"] = {"as_found": [v[1] for v in mc["violated"]], "intended": [], "seeded_model_defects_detected": [] if ctx.quick else ["floor_le13", "whitelist_state"]}
+    ctx.coverage["model_verdicts"] = {head: [v[1] for v in mc["violated"]], INTENDED: [], "seeded_model_defects_detected": [] if ctx.quick else ["floor_le13", "whitelist_state"]}
 
-    # ---- (2) rows for the real code
-    cross = ({"p": "cPExpsQ3", "e": "cEExpsQ4", "dt": "cDtsQ3", "obs": "cObsFewQ"} if ctx.quick
-             else {"p": "cPExps", "e": "cEExps", "dt": "cDtsQ", "obs": "cObsFew"})
-    obsx = {"p": "cPOne", "e": "cEOne", "dt": "cDtInf", "obs": "cObsSets"}
+    # ---- (2) rows for the real code: a reduced cross product and every observable set (noise from the
+    #          config), and the noise-source table (noise from the config / from the device)
+    cross = ({"p": "cPExpsQ3", "e": "cEExpsQ4", "dt": "cDtsQ3", "obs": "cObsFewQ", "src": "cSrcsC"} if ctx.quick
+             else {"p": "cPExps", "e": "cEExps", "dt": "cDtsQ", "obs": "cObsFew", "src": "cSrcsC"})
+    obsx = {"p": "cPOne", "e": "cEOne", "dt": "cDtInf", "obs": "cObsSets", "src": "cSrcsC"}
+    srcx = ({"p": "cPOne", "e": "cEOne", "dt": "cDtInf", "obs": "cObsFewQ", "src": "cSrcs"} if ctx.quick
+            else {"p": "cPExpsQ3", "e": "cEExpsQ4", "dt": "cDtsQ3", "obs": "cObsFew", "src": "cSrcs"})
     tables: dict = {}
 
-    def table(dmrg_first: bool) -> dict:
-        if dmrg_first not in tables:
+    def table(vname: str) -> dict:
+        if vname not in tables:
             rows = []
-            for name, sets in (("cross", cross), ("obs", obsx)):
-                log = run_tlc("MCEmuConfig", None, workdir=ctx.work, name=f"log_{name}_{int(dmrg_first)}", cfg_text=cfg_text(sets, dmrg_first, True), workers=4)
+            for name, sets in (("cross", cross), ("obs", obsx), ("src", srcx)):
+                log = run_tlc("MCEmuConfig", None, workdir=ctx.work, name=f"log_{name}_{vname}", cfg_text=cfg_text(sets, VARIANTS[vname], True), workers=4)
                 ctx.add_tlc(log)
                 rows += parse_rows(log["out"])
             if not rows:
                 raise MachineryError("TLC printed no rows")
-            tables[dmrg_first] = {rkey(r["row"]): r for r in rows}
-        return tables[dmrg_first]
+            tables[vname] = {rkey(r["row"]): r for r in rows}
+        return tables[vname]
 
-    t0 = table(False)
+    t0 = table(head)
     rows = [t0[k]["row"] for k in sorted(t0)]
     ctx.log(f"instantiating {len(rows)} TLC rows on the real MPSConfig / create_impl")
     results = pmap(run_cfg, rows, chunksize=100)
@@ -171,7 +190,8 @@ def run(ctx: Ctx) -> None:
                 d.append((res["row"], f"reorder model {m['eff']['reorder']} real {c['reorder']}"))
             impl = res.get("impl", {})
             want = "raised" if m["out"].startswith("rejected") else IMPL[m["out"]]
-            got = "raised" if "raised" in impl else impl.get("cls")
+            obs_ = res["run"] if "run" in res else impl       # DMRG + noise rows: the public run() path
+            got = "raised" if "raised" in obs_ else obs_.get("cls")
             if want != got:
                 d.append((res["row"], f"create_impl model {m['out']} real {got} {impl.get('msg', '')}"))
             if m["ok"] != (not res["violations"]):
@@ -179,20 +199,23 @@ def run(ctx: Ctx) -> None:
         return d
 
     matched = None
-    for var in (False, True):
-        d = differs(table(var))
+    first = None
+    for vname in VARIANTS:
+        d = differs(table(vname))
         if not d:
-            matched = var
+            matched = vname
             break
-        if var is False:
-            first = d
-    ctx.coverage["mechanism_identified"] = None if matched is None else {"DMRGFirst": matched}
+        first = first or d
+    ctx.coverage["mechanism_identified"] = None if matched is None else {"name": matched, "DMRGFirst": VARIANTS[matched][0], "GateReads": VARIANTS[matched][1]}
     if matched is None:
-        ctx.model_drift(f"real MPSConfig / create_impl differ from EmuConfig.tla on {len(first)} rows, e.g. {first[0]}")
+        ctx.model_drift(f"real MPSConfig / MPSBackend.run / create_impl differ from EmuConfig.tla ({head}) on {len(first)} rows, e.g. {first[0]}")
     else:
-        ctx.log(f"mechanism identified: DMRGFirst={matched} (attributes, implementation class and verdict equal on all {len(real)} rows)")
-        if matched:
-            ctx.notes.append("create_impl applies the solver gate before looking at the Lindblad operators (repaired order)")
+        ctx.log(f"mechanism identified: {matched} {VARIANTS[matched]} (attributes, implementation class and verdict equal on all {len(real)} rows)")
+        bad_model = sorted(k for k, m in tables[matched].items() if not m["ok"])
+        bad_real = sorted(k for k, r in real.items() if r["violations"])
+        if bad_model != bad_real:
+            raise MachineryError(f"identified mechanism predicts {len(bad_model)} failing rows, the real code fails on {len(bad_real)}")
+        ctx.coverage["rows_failing_model_and_real"] = len(bad_real)
 
     # ---- (3a) random floats for the tolerance floor
     import logging
